@@ -113,6 +113,10 @@ class Flow(object):
             return info
         if status == "canceled":
             self.canceled_action = True
+            # trigger of known finding R26: an action's own `canceled` report cancels the workflow, but
+            # with-items tasks that still have items to offer are not canceled along with it
+            if any("items_n" in e and len(e["items_offered"]) < (e["items_n"] or 0) and k != (task, route) for k, e in self.open.items()):
+                self.events.add("canceled-report-with-unoffered-items")
         # ---- with-items: task-level completion from item statuses
         if item is not None and item != "empty":
             ex["items_done"][item] = status
